@@ -59,7 +59,9 @@ def cases(tier, seed):
     for i in range(16 if tier == 'quick' else 120):
         rate, bs = rng.choice(settings3) if i % 3 == 0 else (2, (4, 4, -1)) if i % 3 == 2 else rng.choice([s_ for s_ in settings3 if s_[1][:2] == (4, 4)])
         nI, nX = rng.choice([(8, 16), (16, 16), (9, 7), (5, 5), (2, 64), (3, 43), (10, 13), (70, 66)])
-        out.append({'id': 'writer:zgy:%d' % i, 'kind': 'zgy-writer', 'zgy': conv.zgy_desc(rng, (nI, nX, rng.choice([5, 17, 64, 100]))), 'rate': rate,
+        if i % 3 == 1:
+            rate, bs = rng.choice([(16, (4, 4, -1)), (32, (4, 4, -1))])      # 128 / 64 samples per block: the 100..300-sample traces below span several
+        out.append({'id': 'writer:zgy:%d' % i, 'kind': 'zgy-writer', 'zgy': conv.zgy_desc(rng, (nI, nX, rng.choice([5, 17, 64, 100]) if i % 3 != 1 else rng.choice([150, 300]))), 'rate': rate,
                     'bs': list(bs), 'stage': [None, 'crop', 'reblock'][i % 3], 'cseed': rng.randrange(1 << 30), 'cost': 3})
     # the repository's own test suite under the monitors (pytest plugin): postconditions on every writer entry point
     out.append({'id': 'repo-tests-under-monitors', 'kind': 'repo-tests', 'cost': 12})
@@ -232,13 +234,19 @@ def run_zgy_writer(case, ctx):
             ir = (lo, rng.randrange(lo + 1, nI + 1))
             lo = rng.randrange(nX)
             xr = (lo, rng.randrange(lo + 1, nX + 1))
-            W = [(a // b * b, min(n_, -(-h // b) * b)) for (a, h), n_, b in ((ir, nI, 4), (xr, nX, 4))]
+            zr = None
+            if nZ > sp.bs[2] and rng.random() < 0.7:
+                # crop of the sample range too (whole blocks along z): the float sample axis of a ZGY-sourced file must follow
+                lo = rng.randrange(0, nZ - 1)
+                zr = (lo, rng.randrange(lo + 1, nZ + 1))
+            W = [(a // b * b, min(n_, -(-h // b) * b)) for (a, h), n_, b in ((ir, nI, 4), (xr, nX, 4), (zr or (0, nZ), nZ, sp.bs[2]))]
             with env.quiet():
                 with SgzCropper(out) as c:
-                    c.write_cropped_file_by_indexes(nxt, ir, xr, None)
+                    c.write_cropped_file_by_indexes(nxt, ir, xr, zr)
             sl = tuple(slice(a, b) for a, b in W)
-            t = {'shape': (W[0][1] - W[0][0], W[1][1] - W[1][0], nZ), 'rate': sp.rate, 'bs': sp.bs, 'ilines': sp.ilines()[sl[0]], 'xlines': sp.xlines()[sl[1]],
-                 'samples': sp.samples(), 'ntraces': (W[0][1] - W[0][0]) * (W[1][1] - W[1][0]), 'data_image': V[sl],
+            strata.append('zgy-crop-z:%s' % ('yes' if zr and W[2][0] > 0 else 'no'))
+            t = {'shape': (W[0][1] - W[0][0], W[1][1] - W[1][0], W[2][1] - W[2][0]), 'rate': sp.rate, 'bs': sp.bs, 'ilines': sp.ilines()[sl[0]], 'xlines': sp.xlines()[sl[1]],
+                 'samples': sp.samples()[sl[2]], 'ntraces': (W[0][1] - W[0][0]) * (W[1][1] - W[1][0]), 'data_image': V[sl],
                  'fields': {k: a.reshape(nI, nX)[sl[0], sl[1]].reshape(-1) for k, a in F.items()}, 'version': sp.version}
         if t is not None:
             b, _ = conform.check(nxt, t, tag='zgy-%s:' % st)
@@ -565,7 +573,7 @@ def sample_view(case, res):
 
 def finalize(tier, cases, results, counters, strata):
     reasons = []
-    need = ['writer:3d', 'writer:irregular', 'writer:2d', 'writer:numpy', 'repo-tests', 'writer:VdsConverter', 'writer:ZgyConverter', 'writer:zgy-generated', 'zgy-stage:crop', 'zgy-stage:reblock', 'stage:crop',
+    need = ['writer:3d', 'writer:irregular', 'writer:2d', 'writer:numpy', 'repo-tests', 'writer:VdsConverter', 'writer:ZgyConverter', 'writer:zgy-generated', 'zgy-stage:crop', 'zgy-crop-z:yes', 'zgy-stage:reblock', 'stage:crop',
             'stage:reblock', 'stage:export', 'detection:heuristic', 'detection:thorough', 'detection:exhaustive', 'detection:strip',
             'version-space', 'version-strings', 'version-gates', 'gate-writer', 'gate-reader', 'footer4n%512=0', 'narr>=3', 'legacy-source:unpadded', 'legacy-source:padded']
     for s in need:
